@@ -16,7 +16,9 @@ RULE = ("MafWriter.from_fd(handle that survives close, header, Silent, assume_so
         "MafHeader.from_defaults (sort order object carrying its own contigs); typed (gdc-1.0.0, 34 columns) or "
         "scheme-less records; the produced text is then read back with MafReader; streams valid / boundary "
         "(empty, single, all ties, already sorted, reversed) / defect (unlisted chromosome, sort requested "
-        "without a sortable order) ; non-trivial = sorting on, at least two records with distinct keys; "
+        "without a sortable order); for a share of the sorting cases the writer's MafSorter is built with "
+        "max_objects_in_ram = 1..3 (constructor wrapped) and 4-10 records with pairwise distinct keys in random "
+        "order, so that several spill runs with interleaving key ranges are merged; non-trivial = sorting on, at least two records with distinct keys; "
         "distinct by hash of the case")
 ASSUMPTIONS = [
     "iterating the MafSorter returns a permutation of the added records sorted by the key function it was built with, "
@@ -24,7 +26,10 @@ ASSUMPTIONS = [
     "records handed to the writer validate (Silent stringency here; what a Strict writer refuses is C06)",
     "the header validates or the stringency is not Strict; printing and re-reading header lines is C13",
     "values reaching a key are None, int or str; position text is ASCII; integer-like typed chromosome names are canonical",
-    "fewer than 10000 records (MafSorter's default max_objects_in_ram: one spill file)",
+    "the writer builds its MafSorter with the default max_objects_in_ram=10000; to reach the merge of several spill "
+    "runs with small inputs the harness lowers the capacity by wrapping the constructor maflib.writer.MafSorter "
+    "(functools.partial(MafSorter, max_objects_in_ram=k), k in 1..3) for the cases that carry \"cap\"; those cases "
+    "have pairwise distinct keys (the order of equal keys across runs is heapq's choice, the model sorts stably)",
 ]
 ORDER_NAMES = {"C": "Coordinate", "B": "BarcodesAndCoordinate"}
 
@@ -44,7 +49,10 @@ def _gen_one(rng):
     if stream == "defect" and rng.random() < 0.5:
         mode = "partial"
     contigs = C.gen_contigs(rng, chroms, mode)
+    want_cap = sort and order in ("C", "B") and rng.random() < 0.45
     n = rng.choice([0, 1, 2, 3, 5, 7]) if stream == "boundary" else rng.randint(2, 7)
+    if want_cap:
+        n = rng.randint(5, 10)
     fields = []
     if n:
         fields.append(C.gen_fields(rng, chroms, 0.0 if typed else 0.08, 0.0))
@@ -97,16 +105,30 @@ def _gen_one(rng):
         hdr = {"lines": lines}
         declared = [ORDER_NAMES.get(order, order), contigs or None]
     colnames = C.GDC_NAMES if typed else [nm for nm, _ in names] + ["Other"]
-    return {"stream": stream, "typed": typed, "sort": sort, "hdr": hdr, "declared": declared, "names": colnames, "rows": rows}
+    cap = None
+    if want_cap and declared[0] in ("Coordinate", "BarcodesAndCoordinate"):
+        # several spill runs: keep records with pairwise distinct (and listed) keys, in random order
+        by_bar = declared[0] == "BarcodesAndCoordinate"
+        seen, uniq = set(), []
+        for d in rows:
+            k = C.documented_key(d, by_bar, declared[1])
+            if k == "unlisted" or k in seen:
+                continue
+            seen.add(k)
+            uniq.append(d)
+        if len(uniq) >= 4:
+            rows, cap = uniq, rng.choice([1, 2, 2, 3])
+    return {"stream": stream, "typed": typed, "sort": sort, "cap": cap, "hdr": hdr, "declared": declared,
+            "names": colnames, "rows": rows}
 
 
 def generate(rng, n):
     return [_gen_one(rng) for _ in range(n)]
 
 
-def _ucase(lines, declared, rows, sort=True):
+def _ucase(lines, declared, rows, sort=True, cap=None):
     names = [C.N_CHROM, C.N_START, C.N_END]
-    return {"stream": "corpus", "typed": False, "sort": sort, "hdr": {"lines": lines}, "declared": declared,
+    return {"stream": "corpus", "typed": False, "sort": sort, "cap": cap, "hdr": {"lines": lines}, "declared": declared,
             "names": names, "rows": [{"kind": "untyped", "cols": [[n, v] for n, v in zip(names, r)]} for r in rows]}
 
 
@@ -132,6 +154,13 @@ def corpus():
          "rows": [{"kind": "typed", "f": dict(chrom=c, start=s, end=s)} for c, s in (("X", "5"), ("0", "7"), ("1", "1"), ("0", "1"))]},
         _ucase(["#sort.order Coordinate", "#contigs 0,1"], ["Coordinate", ["0", "1"]], [["1", "0", "0"], ["0", "5", "5"], ["0", "0", "1"], ["0", "0", "0"]]),
         _ucase([], [None, None], [["chr1", "10", "10"], ["chr1", "9", "9"]]),
+        # several spill runs whose key ranges interleave (capacity 2: runs {1,3} {5,7} {4,6} {2}; capacity 3; capacity 1)
+        _ucase(["#sort.order Coordinate"], ["Coordinate", None],
+               [["chr1", p, p] for p in ("3", "1", "7", "5", "6", "4", "2")], cap=2),
+        _ucase(["#sort.order Coordinate", "#contigs chr10,chr2,chr1"], ["Coordinate", ["chr10", "chr2", "chr1"]],
+               [["chr2", "9", "9"], ["chr1", "1", "1"], ["chr10", "10", "10"], ["chr2", "10", "10"], ["chr10", "9", "9"], ["chr1", "2", "2"],
+                ["chr2", "1", "1"]], cap=3),
+        _ucase(["#sort.order Coordinate"], ["Coordinate", None], [["chr1", p, p] for p in ("2", "3", "1", "4")], cap=1),
     ]
 
 
@@ -219,9 +248,15 @@ def run_impl(case):
         def close(self):
             self.closed_by_writer = True
 
+    import maflib.writer as mw
+
     silent = ValidationStringency.Silent
     fd = Handle()
     end = None
+    original_sorter = mw.MafSorter
+    if case.get("cap"):
+        # several spill runs with few records: lower the capacity the writer's sorter is built with
+        mw.MafSorter = functools.partial(original_sorter, max_objects_in_ram=case["cap"])
     try:
         header = _header(case)
         writer = MafWriter.from_fd(fd, header, validation_stringency=silent, assume_sorted=not case["sort"])
@@ -236,6 +271,8 @@ def run_impl(case):
         writer.close()
     except Exception as e:
         end = C.exc_code(e)
+    finally:
+        mw.MafSorter = original_sorter
     text = fd.getvalue()
     lines = text.split("\n")
     trailing_ok = lines[-1] == ""
@@ -327,9 +364,9 @@ def classify(case, obs):
         return case["stream"] + "/error"
     order = case["declared"][0]
     o = {"Coordinate": "C", "BarcodesAndCoordinate": "B"}.get(order, "nosort")
-    return "%s/%s/%s/sort=%s/%s/contigs=%s/%s" % (
+    return "%s/%s/%s/sort=%s%s/%s/contigs=%s/%s" % (
         case["stream"], "typed" if case["typed"] else "untyped", "api" if "api" in case["hdr"] else "lines",
-        "on" if case["sort"] else "off", o, "yes" if case["declared"][1] else "no",
+        "on" if case["sort"] else "off", ("/cap=%d" % case["cap"]) if case.get("cap") else "", o, "yes" if case["declared"][1] else "no",
         "ok" if obs["end"] is None else "raised")
 
 
